@@ -13,12 +13,13 @@
 import copy, os
 import vlib
 
-MODEL = {"quick": dict(MaxN=4, MaxY=2, MaxW=2), "thorough": dict(MaxN=6, MaxY=3, MaxW=2)}
-GEN = {"quick": dict(NA=3, XA=3, YA=3, NP=4, YP=2, NT=4, YT=2, NW=4, YW=2, WS="{1, 3}", NL=5, YL=2),
-       "thorough": dict(NA=4, XA=3, YA=3, NP=4, YP=3, NT=5, YT=2, NW=4, YW=3, WS="{1, 2, 3}", NL=6, YL=3)}
+MODEL = {"quick": [dict(MaxN=4, MaxY=2, MaxW=2)],
+         "thorough": [dict(MaxN=5, MaxY=2, MaxW=2), dict(MaxN=4, MaxY=3, MaxW=2), dict(MaxN=7, MaxY=2, MaxW=1)]}
+GEN = {"quick": dict(NA=3, XA=3, YA=3, NP=4, YP=2, NT=4, YT=2, NW=4, YW=2, WS="{1, 3}", NL=5, YL=2, NF=3),
+       "thorough": dict(NA=4, XA=3, YA=3, NP=4, YP=3, NT=5, YT=2, NW=4, YW=3, WS="{1, 3}", NL=6, YL=3, NF=3)}
 INVS = ["InvPartition", "InvSteps", "InvBestPrefix", "InvHull", "InvTerminal", "InvProgress", "InvMonotone",
         "InvMaxMinMinMax", "InvMirror", "InvKKT", "InvBrute", "InvKnots"]
-ACTIONS = ["Pick", "Start", "MergeAny", "FinishAny", "Advance", "MergeNext", "MergeBack", "BackDone", "FinishBest"]
+ACTIONS = ["PickN", "PickY", "PickW", "Start", "MergeAny", "FinishAny", "Advance", "MergeNext", "MergeBack", "BackDone", "FinishBest"]
 TRACE_CONST = dict(MaxN=0, MaxY=0, MaxW=0)
 TRACE_MODULE = "Trace_Isotonic"
 
@@ -106,8 +107,9 @@ def corrupted_traces(traces, ok):
 
 def run(ctx):
     binp = vlib.cargo_build("x01")
-    vlib.tlc_mc(ctx, "Isotonic", {"spec": "Spec", "constants": MODEL[ctx.tier], "invariants": INVS,
-                                  "properties": ["Termination"]}, coverage_actions=ACTIONS)
+    for consts in MODEL[ctx.tier]:
+        vlib.tlc_mc(ctx, "Isotonic", {"spec": "Spec", "constants": consts, "invariants": INVS,
+                                      "properties": ["Termination"]}, coverage_actions=ACTIONS)
     cases = vlib.tlc_gen(ctx, "Gen_Isotonic", {"constants": GEN[ctx.tier], "invariants": ["Emit"]})
     ctx.exhaustive = True
     if not ctx.quick:
@@ -116,7 +118,7 @@ def run(ctx):
     ctx.cases = len(cases)
     ctx.nontrivial = len({vlib.json.dumps(c["inp"], sort_keys=True) for c in cases if nontrivial(c)})
     traces = vlib.run_harness(ctx, binp, cases)
-    vlib.sample(ctx, [t for t in traces if t["kind"] == "fit" and t["inp"]["x"] == [1, 2, 3, 4] and t["inp"]["y"] == [0, 3, 3, 1]][:1]
+    vlib.sample(ctx, [t for t in traces if t["kind"] == "fit" and t["inp"]["x"] == [1, 2, 3, 4] and t["inp"]["y"] == [0, 2, 2, 1]][:1]
                 + [t for t in traces if t["kind"] == "fit" and t["inp"]["w"] and nontrivial(t)][:1]
                 + [t for t in traces if t["kind"] == "shape"][:1])
     ok, _rej = vlib.validate_with_findings(ctx, TRACE_MODULE, traces, constants=TRACE_CONST, chunk=20000)
